@@ -420,6 +420,7 @@ static int d_vnp_solved(fx_t *F, int v, dv_t *o)
 {
     int n = dvp(o, 0, F->vnpS, X_BASE, 0, "solved");
     n = dvp(o, n, F->vnpL, X_FAIL, EM_INVAL, "unsolved");
+    n = dvp(o, n, F->vnpF, X_FAIL, EM_INVAL, "of-another-vnacal_t");
     return n;
 }
 static int d_calpath(fx_t *F, int v, dv_t *o)
